@@ -507,6 +507,8 @@ def explore(name, harness_fn, loops=None, summaries=None, timeout_ms=10000, max_
             break
         st = State(prefix, timeout_ms)
         h = SymH(st, loops, summaries, concretize)
+        # a single path may not outlive the contract's budget either (a changed tree can make one path loop on and on)
+        h.I.deadline = (deadline + 60) if deadline else None
         res.paths += 1
         try:
             harness_fn(h)
